@@ -169,6 +169,105 @@ Section Fuel.
   Qed.
 End Fuel.
 
+(* ---------- the rounds of GC's referrer pass ---------- *)
+Section GcFuel.
+  Variable N : nat.
+  Variable mf : nat -> bool.
+  Variable succs : nat -> list nat.
+  Variable subj : nat -> option nat.
+  Variable sk : nat -> bool.
+
+  (* the entries a round of the referrer pass may still keep *)
+  Definition cand (tg : list nat) (kv : ref * desc) : bool :=
+    is_digest_ref (fst kv) (snd kv) && negb (mem (d_node (snd kv)) tg).
+  Definition mu (m : rmap) (tg : list nat) : nat := length (filter (cand tg) m).
+
+  Lemma filter_len_le {A} (p q : A -> bool) l :
+    (forall x, In x l -> q x = true -> p x = true) -> length (filter q l) <= length (filter p l).
+  Proof.
+    induction l as [|x l IH]; simpl; intro H; auto.
+    assert (IH' : length (filter q l) <= length (filter p l)) by (apply IH; intros y I; apply H; now right).
+    destruct (q x) eqn:Q.
+    - rewrite (H x (or_introl eq_refl) Q). simpl. lia.
+    - destruct (p x); simpl; lia.
+  Qed.
+  Lemma filter_len_lt {A} (p q : A -> bool) l x :
+    (forall y, In y l -> q y = true -> p y = true) -> In x l -> p x = true -> q x = false ->
+    length (filter q l) < length (filter p l).
+  Proof.
+    induction l as [|y l IH]; simpl; intros H I P Q; [tauto|].
+    assert (Hl : forall z, In z l -> q z = true -> p z = true) by (intros z Iz; apply H; now right).
+    destruct I as [->|I].
+    - rewrite P, Q. simpl. pose proof (filter_len_le p q l Hl). lia.
+    - specialize (IH Hl I P Q). destruct (q y) eqn:Qy.
+      + rewrite (H y (or_introl eq_refl) Qy). simpl. lia.
+      + destruct (p y); simpl; lia.
+  Qed.
+
+  Lemma mu_mono m tg tg' : (forall x, In x tg -> In x tg') -> mu m tg' <= mu m tg.
+  Proof.
+    intro H. unfold mu. apply filter_len_le. intros kv _ C. unfold cand in *.
+    apply andb_true_iff in C as [C1 C2]. rewrite C1. simpl. apply negb_true_iff in C2. apply negb_true_iff.
+    apply mem_false. apply mem_false in C2. auto.
+  Qed.
+  Lemma mu_strict m tg kv : In kv m -> cand tg kv = true -> mu m (d_node (snd kv) :: tg) < mu m tg.
+  Proof.
+    intros I C. unfold mu. apply (filter_len_lt _ _ m kv); auto.
+    - intros y _ Cy. unfold cand in *. apply andb_true_iff in Cy as [C1 C2]. rewrite C1. simpl.
+      apply negb_true_iff in C2. apply negb_true_iff. apply mem_false. apply mem_false in C2.
+      intro X. apply C2. now right.
+    - unfold cand in *. apply andb_true_iff in C as [C1 _]. rewrite C1. cbn [andb].
+      apply negb_false_iff. apply mem_In. now left.
+  Qed.
+
+  Notation round_step bl := (fun (ac : gcacc * bool) (kv : ref * desc) =>
+      let a := fst ac in let r := fst kv in let d := snd kv in
+      if negb (is_digest_ref r d) || mem (d_node d) (g_tagged a) then ac
+      else if chain_hits mf subj sk (S N) bl (g_gr a) (d_node d)
+           then (mkGc (res_tag (strip d) (RDig (d_node d)) (g_res a))
+                      (index_all N mf succs bl (d_node d) (g_gr a)) (d_node d :: g_tagged a), true)
+           else ac).
+
+  Lemma round_progress bl m l : forall a b, (forall kv, In kv l -> In kv m) ->
+    let r := fold_left (round_step bl) l (a, b) in
+    mu m (g_tagged (fst r)) <= mu m (g_tagged a) /\
+    (snd r = true -> b = true \/ mu m (g_tagged (fst r)) < mu m (g_tagged a)).
+  Proof.
+    induction l as [|kv l IH]; intros a b Hl; cbn [fold_left]; [cbn [fst snd]; split; auto|].
+    assert (Hl' : forall x, In x l -> In x m) by (intros x I; apply Hl; now right).
+    destruct kv as [r d]. cbn [fst snd].
+    destruct (negb (is_digest_ref r d) || mem (d_node d) (g_tagged a)) eqn:C; [now apply IH|].
+    destruct (chain_hits mf subj sk (S N) bl (g_gr a) (d_node d)); [|now apply IH].
+    apply orb_false_iff in C as [C1 C2]. apply negb_false_iff in C1.
+    assert (Cd : cand (g_tagged a) (r, d) = true) by (unfold cand; cbn [fst snd]; now rewrite C1, C2).
+    pose proof (mu_strict m (g_tagged a) (r, d) (Hl _ (or_introl eq_refl)) Cd) as St. cbn [fst snd] in St.
+    destruct (IH (mkGc (res_tag (strip d) (RDig (d_node d)) (g_res a))
+                       (index_all N mf succs bl (d_node d) (g_gr a)) (d_node d :: g_tagged a)) true Hl') as [A B].
+    cbn [g_tagged] in A, B. split; [lia|]. intros _. right. lia.
+  Qed.
+
+  Lemma rounds_fuel bl m f1 : forall f2 os a, mu m (g_tagged a) < f1 -> mu m (g_tagged a) < f2 ->
+    gc_rounds N mf succs subj sk f1 bl m os a = gc_rounds N mf succs subj sk f2 bl m os a.
+  Proof.
+    induction f1 as [|f1 IH]; intros f2 os a H1 H2; [lia|]. destruct f2 as [|f2]; [lia|]. cbn [gc_rounds].
+    unfold gc_round.
+    pose proof (round_progress bl m (shuffle (hd [] os) m) a false
+                 (fun kv I => proj1 (In_shuffle _ _ _) I)) as [A B]. cbn [fst snd] in A, B.
+    destruct (snd (fold_left (round_step bl) (shuffle (hd [] os) m) (a, false))) eqn:E; auto.
+    destruct (B eq_refl) as [X|X]; [discriminate|]. apply IH; lia.
+  Qed.
+
+  (* the referrer pass of gcIndex: S |refMap| rounds are enough for any order *)
+  Theorem gc_rounds_fuel_sufficient bl m os a fuel :
+    length m < fuel ->
+    gc_rounds N mf succs subj sk (S (length m)) bl m os a = gc_rounds N mf succs subj sk fuel bl m os a.
+  Proof.
+    intro H. assert (X : mu m (g_tagged a) <= length m).
+    { unfold mu. clear. induction m as [|x l IH]; simpl; auto. destruct (cand (g_tagged a) x); simpl; lia. }
+    apply rounds_fuel; lia.
+  Qed.
+End GcFuel.
+
 Lemma fuel_example :
   (forall k c, In c (ex_succs k) -> c < k) /\ Forall (fun oo => op_below 3 (fst oo)) ex_hist.
 Proof.
